@@ -1,4 +1,5 @@
 import TwistedProps.C35.Tamper
+import TwistedProps.C35.Rekey
 /-!
 C35 — the SSH transport delivers packets intact and detects tampering.
 
@@ -17,6 +18,11 @@ and, for tampering, `DecInj` (decryption in a given state is injective on whole 
 and tag).  These are hypotheses — the level is PARTIAL with respect to them.  Helper lemmas:
 `TwistedProps/C35/{Defs,Recv,Feed,Send,Ident,Tamper}.lean`.
 
+Key (re-)exchange while payloads are being sent: `TwistedModel/Ssh/Rekey.lean` (`sendPacket`'s queue, `sendKexInit`, `ssh_KEXINIT`'s
+state step, `_keySetup`, `_newKeys` on both sides, as repaired by the two `fix:` commits found with it); theorems
+`held_back_payloads_keep_their_order`, `new_keys_sends_held_back_in_order`, `rekey_stream_delivered_any_segmentation_partial`
+(lemmas: `TwistedProps/C35/Rekey.lean`).
+
 Well-formedness hypotheses, all matching preconditions of the protocol:
   * `bannerOK`/`versionOK`: lines before the version line contain no `\n` and do not start with `SSH-`;
     the version line starts with `SSH-`, its protocol version is supported (`2.0`, `1.99`);
@@ -25,7 +31,7 @@ Well-formedness hypotheses, all matching preconditions of the protocol:
   * block size between 5 and 128 (real: 8, 16).
 -/
 namespace TwistedProps.C35
-open Twisted.Py Twisted.Ssh.Packet
+open Twisted.Py Twisted.Ssh.Packet Twisted.Ssh.Rekey
 
 variable {σe σc σd σz : Type}
 
@@ -144,6 +150,77 @@ theorem tamper_causes_disconnect (A : RecvAlg σd σz) (hbs : 5 ≤ A.bs) (hA : 
     omega
   · exact ⟨reason, desc, by rw [hfeed, htl]⟩
 
+/-! ### Key (re-)exchange while payloads are being sent (`TwistedModel/Ssh/Rekey.lean`)
+
+Histories of the sending transport: `sendPacket` calls interleaved with key exchanges started by either side
+(`sendKexInit` / the peer's KEXINIT), `_keySetup` (our NEWKEYS) and `_newKeys` (the peer's NEWKEYS) in any number of
+rounds.  While a key exchange is in progress `sendPacket` holds back what RFC 4253 7.1 forbids to send, and everything once our
+own NEWKEYS is out; `_newKeys` takes the next algorithms into use and sends what was held back. -/
+
+/-- **C35, order across key exchanges (sender)** — for EVERY history (no hypothesis on its shape; it may end anywhere, also by
+    an exception): the chunks handed to `transport.write` are, one for one, the packets of the messages `ws.map Wr.m`, each
+    built with the algorithms in use when it is written; and among them the payloads that may not be sent during key exchange
+    — followed by those still held back at the end — are exactly the ones handed to `sendPacket`, in the order of the calls:
+    none lost, none duplicated, none overtaken by another one (seeded change C35-2 reversed them). -/
+theorem held_back_payloads_keep_their_order (K : KSender σe σc) (hwf : K.kex = Kex.none → K.blocked = [])
+    (ops : List Op) :
+    ∃ ws : List (Wr σe σc), (kRun K ops).2.1 = ws.map Wr.bytes ∧
+      (ws.map Wr.m).filter deferrable ++ (kRun K ops).1.blocked.filter deferrable =
+        K.blocked.filter deferrable ++ (kRunM K ops).2.filter deferrable := by
+  obtain ⟨h1, h2⟩ := kRun_writes ops K
+  exact ⟨kRunW K ops, h1, by rw [← h2]; exact kRun_deferrable_in_order ops K hwf⟩
+
+/-- **`_newKeys` sends what was held back front to back** — every held-back message (whatever its type), in the order it
+    was queued, with the new algorithms, and the queue is empty afterwards. -/
+theorem new_keys_sends_held_back_in_order (K : KSender σe σc) (e : SEpoch σe σc) (fut : List (SEpoch σe σc))
+    (hf : K.future = e :: fut) (hk : K.kex ≠ Kex.none) :
+    ∃ (r : KSender σe σc × List Bytes) (ws : List (Wr σe σc)), kNewKeys K = .ok r ∧ r.2 = ws.map Wr.bytes ∧
+      ws.map Wr.m = K.blocked ∧ (∀ w ∈ ws, w.alg.bs = e.bs) ∧ r.1.blocked = [] ∧ r.1.kex = Kex.none := by
+  obtain ⟨i1, i2, i3⟩ := kFlush_in_order (K.adopt e fut) rfl K.blocked
+  obtain ⟨j1, j2⟩ := kFlush_writes K.blocked (K.adopt e fut)
+  refine ⟨kFlush (K.adopt e fut) K.blocked, kFlushW (K.adopt e fut) K.blocked, by simp [kNewKeys, hf, hk], j1,
+    by rw [← j2, i1], ?_, by rw [i3]; rfl, i2⟩
+  have : ∀ (ms : List Msg) (K' : KSender σe σc), K'.kex = Kex.none → ∀ w ∈ kFlushW K' ms, w.alg = K'.alg := by
+    intro ms
+    induction ms with
+    | nil => intro K' _ w hw; simp [kFlushW] at hw
+    | cons m ms ih =>
+      intro K' hk' w hw
+      have hh : K'.holds m.mt = false := by simp [KSender.holds, hk']
+      simp only [kFlushW, kSendW, hh, Bool.false_eq_true, if_false, List.cons_append, List.nil_append,
+        List.mem_cons] at hw
+      rcases hw with rfl | hw
+      · rfl
+      · have := ih (kSendPacket K' m).1 (by simp [kSendPacket, hh, hk']) w hw
+        rw [this]; simp [kSendPacket, hh]
+  intro w hw
+  rw [this K.blocked (K.adopt e fut) rfl w hw]; rfl
+
+/-- **C35, delivery across key exchanges (receiver), any segmentation** — a stream of honest packets in which every NEWKEYS
+    packet is followed by packets for the next algorithms (`KChainTo`): whatever the segmentation, the receiver — which takes
+    the next decryptor / MAC / decompressor into use at the moment it dispatches NEWKEYS, also in the middle of a delivery —
+    dispatches exactly the payloads, in order, and never disconnects.
+
+    PARTIAL with respect to the full statement `kFeedAll R segs = (kRunM K ops).1.map msgEv` for
+    `segs.flatten = (kRun K ops).2.1.flatten`: what is missing is the lemma that the packets a protocol-conforming history
+    writes (`kRunW K ops`, with `Paired` contracts for every pair of sender/receiver algorithms that come into use) form such
+    a chain — the invariant "nothing is written between our NEWKEYS and `_newKeys`" (that is what `_newKeysSent` is for) —
+    and the identification phase in front (`kDataReceived` repeats `dataReceived`'s, proved for one set of algorithms in
+    `payloads_delivered_in_order_any_segmentation`).  Both are exercised by the differential tie on every history. -/
+theorem rekey_stream_delivered_any_segmentation_partial (R : KReceiver σd σz) (E : RPos σd σz) (hE : 5 ≤ E.A.bs)
+    (hr : R.r.gotVersion = true ∧ R.r.buf = [] ∧ R.r.first = none) (fs : List Frame)
+    (hc : KChainTo ⟨R.alg, ⟨R.r.seq, R.r.ds, R.r.zs⟩, R.future⟩ fs E)
+    (segs : List Bytes) (hsegs : segs.flatten = wires fs) :
+    kFeedAll R segs = evs fs := by
+  apply kfeed_honest segs fs E hE ⟨R.r.seq, R.r.ds, R.r.zs⟩ R hc hr.1 rfl rfl
+  · rw [hr.2.1, List.nil_append, hsegs]
+  · intro f rest h
+    refine ⟨Or.inl ⟨hr.2.2, rfl⟩, ?_⟩
+    rw [hr.2.1]
+    rw [h] at hc
+    obtain ⟨_, st', ha, _⟩ := hc
+    exact wire_pos R.alg _ st' f ha
+
 /-! ### Non-vacuity -/
 
 def toyMac (q : Nat) (p : Bytes) : Bytes := [UInt8.ofNat ((q + p.foldl (fun a b => a + b.toNat) 0) % 251)]
@@ -180,6 +257,31 @@ example : feedAll toyRecv exR
     (cut (identOf exBanner exVersion ++ (sendAll toySend exS exMsgs).2.flatten) (List.replicate 12 5)) =
     [Ev.version (ascii "SSH-2.0-x"), Ev.msg 94 [1, 2, 3], Ev.msg 5 []] := by decide
 
+
+/-! a re-key in the middle of traffic: second set of algorithms with another MAC -/
+def toyMac2 (q : Nat) (p : Bytes) : Bytes := [UInt8.ofNat ((q + 7 + p.foldl (fun a b => a + 3 * b.toNat) 0) % 251)]
+def exSE : SEpoch Unit Unit := { bs := 8, enc := fun s x => (s, x), mac := toyMac2, es := (), z := none }
+def exRE : REpoch Unit Unit :=
+  { bs := 8, ms := 1, dec := fun s x => (s, x), verify := fun q p m => m == toyMac2 q p, ds := (), z := none }
+def exK : KSender Unit Unit :=
+  { s := ⟨3, (), ()⟩, alg := toySend, kex := Kex.none, blocked := [], newKeysSent := false, future := [exSE] }
+def exKR : KReceiver Unit Unit :=
+  { r := ⟨true, [], none, 3, (), ()⟩, alg := toyRecv, future := [exRE] }
+/-- payloads 2 and 3 are sent while the key exchange is in flight, IGNORE (type 2) is allowed then — except after our NEWKEYS -/
+def exOps : List Op :=
+  [.send ⟨94, [1], []⟩, .kexInit ⟨20, [7], []⟩, .send ⟨94, [2], []⟩, .send ⟨2, [9], []⟩, .send ⟨94, [3], []⟩,
+   .peerKexInit ⟨20, [], []⟩, .keySetup [], .send ⟨2, [8], []⟩, .newKeys, .send ⟨94, [4], []⟩]
+
+example : (kRunM exK exOps).1.map (fun m => (m.mt, m.data)) =
+    [(94, [1]), (20, [7]), (2, [9]), (21, []), (94, [2]), (94, [3]), (2, [8]), (94, [4])] := by decide
+/-- the bytes of that history cut into 7-byte pieces: everything is dispatched, the held-back payloads after NEWKEYS in the
+    order they were sent, checked with the second MAC -/
+example : kFeedAll exKR (cut ((kRun exK exOps).2.1.flatten) (List.replicate 20 7)) =
+    [Ev.msg 94 [1], Ev.msg 20 [7], Ev.msg 2 [9], Ev.msg 21 [], Ev.msg 94 [2], Ev.msg 94 [3], Ev.msg 2 [8],
+     Ev.msg 94 [4]] := by decide +kernel
+/-- … and the same bytes read by a receiver that keeps the first MAC are refused right after NEWKEYS -/
+example : (kFeedAll { exKR with future := [{ exRE with verify := fun q p m => m == toyMac q p }] }
+    (cut ((kRun exK exOps).2.1.flatten) (List.replicate 20 7))).drop 4 = [Ev.disc 5 (ascii "bad MAC")] := by decide +kernel
 
 /-! tampering: a receiver whose MAC check accepts exactly the sender's packet and tag -/
 def plain0 : Bytes := mkPacket 8 [94, 1, 2, 3] [7, 7, 7, 7, 7, 7, 7]
